@@ -57,7 +57,8 @@ Tick == /\ phase = "run" /\ now < NSamples
 SwapSame == /\ phase = "run" /\ now \in SwapAt /\ NSwaps < MaxSwaps
             /\ now < NSamples
             /\ LET fresh == Boot(Prog)
-               IN rst' = [fresh EXCEPT !.S.c = rst.S.c]
+               \* (the out-of-model flag is not part of the program's state: it marks the history)
+               IN rst' = [fresh EXCEPT !.S.c = rst.S.c, !.S.oom = rst.S.oom]
             /\ hist' = Append(hist, "swap")
             /\ UNCHANGED <<vars, phase, now, outs, inp>>
 
